@@ -185,20 +185,45 @@ func runC02(t *testing.T, sci interface{}, keepLog bool) *hx.Outcome {
 		if st.a == nil || !s.APIQuiescent() {
 			return
 		}
-		// registered counts = holders + callers blocked inside lock()
-		wantR, wantW := map[int]int{}, map[int]int{}
-		keys := map[int]bool{}
+		// Every holder of a key must be registered in the locker's per-key state; nothing may be registered beyond the holders and
+		// the callers blocked inside lock() on a list containing the key (an implementation may register a blocked multi-key
+		// caller's later keys early or late: the property does not say); an entry without holder or waiter is residue.
+		holdR, holdW, waitR, waitW := map[int]int{}, map[int]int{}, map[int]int{}, map[int]int{}
 		for _, q := range st.acqs {
-			if !(q.held || (q.active && q.task.Blocked())) {
+			blocked := q.active && q.task != nil && q.task.Blocked()
+			if !q.held && !blocked {
 				continue
 			}
 			for _, k := range q.r.Keys {
-				keys[k] = true
-				if q.r.Write {
-					wantW[k]++
-				} else {
-					wantR[k]++
+				switch {
+				case q.held && q.r.Write:
+					holdW[k]++
+				case q.held:
+					holdR[k]++
+				case q.r.Write:
+					waitW[k]++
+				default:
+					waitR[k]++
 				}
+			}
+		}
+		// independence: a caller blocked inside lock() must be waiting for one of ITS keys: some listed key is held in a conflicting
+		// mode, or somebody else is queued on it (writer preference / fairness). Blocked with none of that = blocked by unrelated keys.
+		for _, q := range st.acqs {
+			if !(q.active && q.task != nil && q.task.Blocked()) {
+				continue
+			}
+			justified := false
+			for _, k := range q.r.Keys {
+				others := waitR[k] + waitW[k] - 1 // other blocked callers listing k
+				if holdW[k] > 0 || (q.r.Write && holdR[k] > 0) || others > 0 {
+					justified = true
+					break
+				}
+			}
+			if !justified {
+				s.Fail("blocked-by-unrelated-key", "a caller is blocked locking keys %v (write=%v) although none of them is held in a conflicting mode or waited for by anyone else", q.r.Keys, q.r.Write)
+				return
 			}
 		}
 		nk := sc.NKeys
@@ -207,11 +232,15 @@ func runC02(t *testing.T, sci interface{}, keepLog bool) *hx.Outcome {
 		}
 		for k := 0; k < nk; k++ {
 			r, w, present := st.a.counts(k)
-			if r != wantR[k] || w != wantW[k] {
-				s.Fail("key-count-mismatch", "key %d: locker registers %d reader(s)/%d writer(s), callers holding or waiting: %d/%d", k, r, w, wantR[k], wantW[k])
+			if r < holdR[k] || w < holdW[k] {
+				s.Fail("key-count-mismatch", "key %d: locker registers %d reader(s)/%d writer(s), but %d reader(s)/%d writer(s) hold it", k, r, w, holdR[k], holdW[k])
 				return
 			}
-			if present && !keys[k] {
+			if r > holdR[k]+waitR[k] || w > holdW[k]+waitW[k] {
+				s.Fail("key-count-mismatch", "key %d: locker registers %d reader(s)/%d writer(s), more than the %d/%d that hold it plus the %d/%d blocked on it", k, r, w, holdR[k], holdW[k], waitR[k], waitW[k])
+				return
+			}
+			if present && holdR[k]+holdW[k]+waitR[k]+waitW[k] == 0 {
 				s.Fail("residue-entry", "key %d: nobody holds or waits, yet the locker keeps an entry", k)
 				return
 			}
